@@ -34,3 +34,14 @@ CHECKS["C13"] = {
   "text": "Generated histories of supply / withdraw / borrow / repay / collateral-flag changes / reads of a random derived view / new bars / end-of-bar liquidations, accepted and rejected; after every step supplies, borrows (amounts, values, flags, apy), per-token and total supply / collateral / debt values, health factor, LTV, max LTV, liquidation threshold, APYs and get_market_balance() are compared with a recomputation from the raw positions, the bar's indices and prices (1e-25 relative, 0.51e-4 where the code quantises). Sampled exploration.",
   "note": "Trusts the raw containers _supplies/_borrows as ground truth and a 60-digit Decimal evaluation of (1+r/N)^N for APYs.",
 }
+
+CHECKS["C11"] = {
+  "technique": "Hypothesis generated portfolios reached by real operations and re-priced, requests at the frontier of the max-borrow / max-withdraw helpers; outcomes compared with the Aave v3 admissibility conditions in exact rationals (soundness always, completeness with 0.1% margin)",
+  "text": "Generated 2-4 token risk tables (LTV <= LT < 1) x collateral / non-collateral supplies x several debts x price and index moves (health factor anywhere); every borrow / withdraw / flag change, accepted or rejected, is judged by the Fraction condition (collateral x weighted max-LTV covers debt + new borrow; health factor afterwards >= 1), HF >= 1 after every accepted operation on a healthy account, HF / max-LTV / liquidation-threshold views against their definitions, and the max helpers: helper amount accepted, <= supplied, 1.01x (withdraw) / 1.0202x (borrow) rejected. Sampled exploration.",
+  "note": "Completeness only with 0.1% margin; helper claims only for accounts with collateral and a positive helper answer; amounts non-negative.",
+}
+CHECKS["C12"] = {
+  "technique": "Hypothesis generated multi-collateral multi-debt portfolios driven below HF 1 by generated price / index rows; every liquidation step observed through the action callback and validated against an exact rational step model",
+  "text": "For every update(): no step and unchanged state iff HF >= 1; per step: HF < 1 before, one debt visited at most once, repaid <= close factor (1/2 above HF 0.95, else 1) x debt, seized = repaid value x (1 + collateral's bonus) / collateral price at the collateral's own liquidity index (or all collateral with the repayment scaled), only that collateral and that debt change, wallet identical, net value falls by exactly bonus x repaid value, amounts non-negative, the LiquidationAction fields equal the observed deltas; on exit HF >= 1 or no collateral or every positive debt visited; no exception escapes. Sampled exploration with unequal indices in 5 of 6 cases.",
+  "note": "The choice of the (collateral, debt) pair is not prescribed by the property and not checked. States in which a supply with liquidation threshold 0 was flagged as collateral by hand are excluded from the 'iff' direction.",
+}
